@@ -73,7 +73,59 @@ def gen(args) -> list:
                     ev["pyoda_read_std"] = [p.nanosecond_of_day // 10**9, p.nanosecond_of_day % 10**9]
 
             evs.append(guarded(ev, body))
-        elif c < 0.55:
+        elif c < 0.42:
+            # the reduced-precision and variable-precision built-ins of LocalTime / LocalDateTime / Instant
+            form = rnd.choice(["general", "hm", "h", "var", "var"])
+            kind = rnd.choice(["time", "datetime", "instant"]) if form in ("general",) else rnd.choice(["time", "datetime"])
+            nod = rnod()
+            cc = rnd.random()
+            if form == "var":
+                nod = nod if cc < 0.4 else (nod // (60 * 10**9)) * 60 * 10**9 if cc < 0.7 else (nod // (3600 * 10**9)) * 3600 * 10**9
+            # what the form keeps of the value (the rest is not written; only values it keeps entirely are read back)
+            unit = {"general": 10**9, "hm": 60 * 10**9, "h": 3600 * 10**9, "var": 1}[form]
+            kept = (nod // unit) * unit
+            sd = dt.date.fromordinal(rnd.choice([1, dt.date.max.toordinal(), rnd.randint(1, dt.date.max.toordinal())]))
+            val = [nod // 10**9, nod % 10**9] if kind == "time" else [sd.year, sd.month, sd.day, nod // 10**9, nod % 10**9]
+            ev = {"op": kind + "_form", "form": form, "value": val}
+
+            def body(ev=ev, kind=kind, form=form, nod=nod, kept=kept, sd=sd):
+                lt = LocalTime.from_nanoseconds_since_midnight(nod)
+                if kind == "time":
+                    pat = {"general": LocalTimePattern.general_iso, "hm": LocalTimePattern.hour_minute_iso, "h": LocalTimePattern.hour_iso,
+                           "var": LocalTimePattern.variable_precision_iso}[form]
+                    v = lt
+                    proj_v = lambda x: [x.nanosecond_of_day // 10**9, x.nanosecond_of_day % 10**9]  # noqa: E731
+                elif kind == "datetime":
+                    pat = {"general": LocalDateTimePattern.general_iso, "hm": LocalDateTimePattern.date_hour_minute_iso,
+                           "h": LocalDateTimePattern.date_hour_iso, "var": LocalDateTimePattern.variable_precision_iso}[form]
+                    v = LocalDate(sd.year, sd.month, sd.day).at(lt)
+                    proj_v = lambda x: [x.year, x.month, x.day, x.nanosecond_of_day // 10**9, x.nanosecond_of_day % 10**9]  # noqa: E731
+                else:
+                    pat = InstantPattern.general
+                    v = Instant._ctor(days=sd.toordinal() - 719163, nano_of_day=nod)
+                    proj_v = lambda x: (lambda u: [u.year, u.month, u.day, u.nanosecond_of_day // 10**9, u.nanosecond_of_day % 10**9])(x.in_utc().local_date_time)  # noqa: E731
+                text = pat.format(v)
+                ev["text"] = cps(text)
+                ks, kus = kept // 10**9, (kept % 10**9) // 1000
+                if kind == "time":
+                    r = dt.time.fromisoformat(text)
+                    ev["std_read"], ev["std_expect"] = [r.hour * 3600 + r.minute * 60 + r.second, r.microsecond], [ks, kus]
+                else:
+                    r = dt.datetime.fromisoformat(text)
+                    ev["std_read"] = [r.year, r.month, r.day, r.hour * 3600 + r.minute * 60 + r.second, r.microsecond]
+                    ev["std_expect"] = [sd.year, sd.month, sd.day, ks, kus]
+                if kept == nod:
+                    ev["pyoda_read_own"] = proj_v(pat.parse(text).value)
+                    if nod % 1000 == 0 and form in ("general", "var"):
+                        s0 = nod // 10**9
+                        if kind == "time":
+                            std_text = dt.time(s0 // 3600, (s0 % 3600) // 60, s0 % 60, kus).isoformat()
+                        else:
+                            std_text = dt.datetime(sd.year, sd.month, sd.day, s0 // 3600, (s0 % 3600) // 60, s0 % 60, kus).isoformat() + ("Z" if kind == "instant" else "")
+                        ev["pyoda_read_std"] = proj_v(pat.parse(std_text).value)
+
+            evs.append(guarded(ev, body))
+        elif c < 0.6:
             sd = dt.date.fromordinal(rnd.choice([1, dt.date.max.toordinal(), rnd.randint(1, dt.date.max.toordinal())]))
             nod = rnod()
             ev = {"op": "datetime", "value": [sd.year, sd.month, sd.day, nod // 10**9, nod % 10**9]}
